@@ -27,8 +27,8 @@ from ..core import Sub, fail, enc, jkey
 from .. import heapfp
 
 BOUNDS = {
-    'quick': 'operation alphabet: parse(f) for 21 residue-leaving formulas, set_variable x 2 values, set_function x 2 bodies, '
-             'on/off of a cell listener (27 operations); all histories of length <= 2 x 18 probes, debug off and on, each '
+    'quick': 'operation alphabet: parse(f) for 23 residue-leaving formulas, set_variable x 2 values, set_function x 2 bodies, '
+             'on/off of a cell listener (29 operations); all histories of length <= 2 x 20 probes, debug off and on, each '
              'history in a pristine process (fork server) against solo outcomes from pristine processes; closure '
              'search over heap fingerprints to a fixpoint (cap depth 5); repetition ladder 1,2,4,...,64 per formula for live '
              'traceback/frame counts; host-list immutability for every documented function x arity <= 2 x list-valued '
@@ -106,8 +106,9 @@ def seams():
 FORMULAS = ['SUM(1,2)+va', 'va*2', '1/0', 'nosuchvar+1', 'SUM(1/0,1)', 'MAX(NA())', '1+', '"abc', '#REF!', 'NOSUCHFN(1)',
             'FBOOM(1)', 'FSYN(1)', '{1,2}+1', 'DATE(2019,1,2)+1', 'YEAR(NOW())+RAND()', 'FN(va)&A1',
             'ABS(TRUE)&"|"&SUM("1")&"|"&INDEX({"a","b"},TRUE)', 'ABS(1.0)&"|"&SUM(1.0)&"|"&(0.0+FALSE)',
+            'B2-A1+SUM(A1:B2)', 'SUM(B2:A1)+SUM($C$3:A2)',
             'IFERROR(FBOOM(2),A1)', 'CONCATENATE(1/0,"x")', 'A1:B2']
-NPROBE = 18      # the first 18 are also probes
+NPROBE = 20      # the first 20 are also probes
 NEEDS_ZYGOTE = True
 
 
@@ -133,11 +134,12 @@ OPS = op_alphabet()
 
 
 def cell_listener(cell, setter):
-    setter(7)
+    # the value identifies the cell that was asked for (by coordinates AND by label)
+    setter(100 * cell.row.index + cell.col.index + 1 + (1000 if cell.label.replace('$', '') != 'A1' else 0))
 
 
 def range_listener(s, e, setter):
-    setter([[1, 2], [3, 4]])
+    setter([[s.row.index, s.col.index, len(s.label)], [e.row.index, e.col.index, len(e.label)]])
 
 
 class World(object):
@@ -268,7 +270,7 @@ class Histories(Sub):
             rest = depth - len(prefix)
             for tail in itertools.product(OPS, repeat=rest):
                 hist = prefix + list(tail)
-                if any(op[0] == 'parse' and op[1] in (2, 3, 4, 5, 6, 7, 8, 9, 10, 11, 18, 19) for op in hist):
+                if any(op[0] == 'parse' and op[1] in (2, 3, 4, 5, 6, 7, 8, 9, 10, 11, 20, 21) for op in hist):
                     env.nt()
                 env.note('len%d' % len(hist))
                 env.cov['traces_validated_against_impl'] = env.cov.get('traces_validated_against_impl', 0) + 1
@@ -480,7 +482,7 @@ class Retention(Sub):
         env.evals += 64
         if 'crash' in res:
             return fail('retention probe crashed: %s' % res['crash'])
-        if case in (2, 3, 4, 5, 6, 7, 8, 9, 10, 11, 18, 19):
+        if case in (2, 3, 4, 5, 6, 7, 8, 9, 10, 11, 20, 21):
             env.nt()
         counts, fps = res['counts'], res['fps']
         if len(set(counts[1:])) > 1 or counts[-1] > counts[0] + 2:
